@@ -20,6 +20,24 @@ theorem append_ne_self_left (a x : String) (hx : x ≠ "") : x ++ a ≠ a := by
   have h0 : x.length = 0 := by omega
   exact hx (String.length_eq_zero_iff.mp h0)
 
+theorem takeWhile_noslash_append (l : List Char) (hl : '/' ∉ l) (t : List Char) :
+    (l ++ '/' :: t).takeWhile (fun c => c != '/') = l := by
+  induction l with
+  | nil => simp
+  | cons a l ih =>
+    have ha : a ≠ '/' := fun h => hl (by simp [h])
+    have hl' : '/' ∉ l := fun h => hl (by simp [h])
+    simp [ha, ih hl']
+
+theorem takeWhile_noslash (l : List Char) (hl : '/' ∉ l) :
+    l.takeWhile (fun c => c != '/') = l := by
+  induction l with
+  | nil => simp
+  | cons a l ih =>
+    have ha : a ≠ '/' := fun h => hl (by simp [h])
+    have hl' : '/' ∉ l := fun h => hl (by simp [h])
+    simp [ha, ih hl']
+
 /-! ### the verdicts, characterised -/
 
 theorem verdictV2_accepted_iff (own sender : String) (kids : List Child) (sent : Bool) (m : Msg) :
